@@ -73,4 +73,11 @@ VARIANTS = [
          old="        return RandomGreedyOptimizer(**self._suboptimizer_kwargs)\n",
          new="        opt = self.last_opt\n        if (opt is None) or (self._suboptimizer_kwargs.get(\"seed\") is None):\n            opt = RandomGreedyOptimizer(**self._suboptimizer_kwargs)\n        return opt\n",
          expect=("C16-FRESH", "ReusableRandomGreedyOptimizer")),
+    dict(name="round3: shortcut _run_optimizer that records no sub-optimizer", kind="break", file="cotengra/hyperoptimizers/hyper.py",
+         old="    def _get_suboptimizer(self):\n        return HyperOptimizer(**self._suboptimizer_kwargs)\n",
+         new="    def _get_suboptimizer(self):\n        return HyperOptimizer(**self._suboptimizer_kwargs)\n\n    def _run_optimizer(self, inputs, output, size_dict):\n        if len(inputs) <= 2:\n            return {\"path\": ((0, 1),) if len(inputs) == 2 else (), \"score\": 0.0, \"sliced_inds\": ()}\n        return super()._run_optimizer(inputs, output, size_dict)\n",
+         expect=("C16-OWNRUN", "records-suboptimizer")),
+    dict(name="twin: _run_optimizer override that only delegates", kind="twin", file="cotengra/hyperoptimizers/hyper.py",
+         old="    def _get_suboptimizer(self):\n        return HyperOptimizer(**self._suboptimizer_kwargs)\n",
+         new="    def _get_suboptimizer(self):\n        return HyperOptimizer(**self._suboptimizer_kwargs)\n\n    def _run_optimizer(self, inputs, output, size_dict):\n        return super()._run_optimizer(inputs, output, size_dict)\n"),
 ]
